@@ -295,8 +295,8 @@ def find_stylesheets(wrapper_element, device_media_type, url_fetcher, base_url,
 def find_style_attributes(tree, presentational_hints=False, base_url=None):
     """Yield ``specificity, (element, declaration, base_url)`` rules.
 
-    Rules from "style" attribute are returned with specificity
-    ``(1, 0, 0)``.
+    Rules from "style" attribute are returned with a specificity higher than
+    the specificity of any selector.
 
     If ``presentational_hints`` is ``True``, rules from presentational hints
     are returned with specificity ``(0, 0, 0)``.
@@ -307,7 +307,7 @@ def find_style_attributes(tree, presentational_hints=False, base_url=None):
         return element, declarations, base_url
 
     for element in tree.iter():
-        specificity = (1, 0, 0)
+        specificity = (float('inf'), 0, 0)
         style_attribute = element.get('style')
         if style_attribute:
             yield specificity, check_style_attribute(element, style_attribute)
